@@ -136,6 +136,23 @@ func directedNesting(c *ctx) {
 		}
 		rec("", nil, 0)
 	}
+	// depth: hundreds to thousands of simultaneously open elements of one kind (dropped for lack of
+	// attributes, kept, disallowed skip-content, pattern-kept), closed in order; thresholds around
+	// powers of two
+	{
+		pid, pol := c.policy(policies[0])
+		pid2, pol2 := c.policy(policies[1])
+		for _, k := range []kind{{"<a>", "</a>"}, {"<b>", "</b>"}, {"<a href=\"http://x/\">", "</a>"}, {"<object>", "</object>"}, {"<my-el>", "</my-el>"}, {"<u>", "</u>"}} {
+			for _, n := range []int{100, 255, 256, 257, 511, 512, 513, 600, 1023, 1025, 2049} {
+				if c.n < 20000 && n != 257 && n != 513 {
+					continue
+				}
+				doc := strings.Repeat(k.open, n) + "<b>text</b>" + strings.Repeat(k.close, n) + "after"
+				c.san(pid, pol, []byte(doc))
+				c.san(pid2, pol2, []byte(doc))
+			}
+		}
+	}
 	// an element pattern registered through AllowNoAttrs after the policy has sanitised that element
 	for v := 0; v < 3; v++ {
 		first := []*bmx.Op{{Kind: "AE", Names: []string{"b", "div"}}, {Kind: "AA", Names: []string{"id"}, Scope: "M", ScopeRe: bmx.NewRE(`^y-`)}}
@@ -166,6 +183,21 @@ func directedC01(c *ctx) {
 		{{Kind: "AE", Names: append([]string{"svg", "math", "p"}, raws[:4]...)}},
 		{{Kind: "AE", Names: []string{"p", "b", "title", "textarea"}}, {Kind: "AC"}, {Kind: "SP", Flag: true}},
 		{{Kind: "AEM", Re: bmx.NewRE(`^(svg|math|title|xmp|noscript|p)$`)}, {Kind: "AC"}, {Kind: "AK", Names: []string{"iframe", "noembed"}}},
+	}
+	// a disallowed element first as a self-closing tag and then as a start tag (with and without
+	// attributes), after a start tag of an allowed element: whatever the loop remembers about
+	// "the most recent start tag" must not be taken for the rules of the next one
+	{
+		ops := []*bmx.Op{{Kind: "AE", Names: []string{"b", "p"}}, {Kind: "AA", Names: []string{"id", "href"}, Scope: "G"}, {Kind: "AEM", Re: bmx.NewRE(`^my-`)}}
+		pid, pol := c.policy(ops)
+		for _, a := range []string{"<b>", "<p id=1>", "<my-el>", "<b/>", ""} {
+			for _, d := range []string{"svg", "form", "u", "zz-top", "object", "B2"} {
+				for _, shape := range []string{"%[1]sx<%[2]s/>y<%[2]s>z</%[2]s>", "%[1]s<%[2]s/><%[2]s id=x>z</%[2]s>", "%[1]s<%[2]s id=1/><%[2]s id=2>z", "<%[2]s/>%[1]s<%[2]s>z</%[2]s>",
+					"%[1]s<%[2]s></%[2]s><%[2]s>z", "%[1]s</%[2]s><%[2]s>z"} {
+					c.san(pid, pol, []byte(fmt.Sprintf(shape, a, d)))
+				}
+			}
+		}
 	}
 	for _, ops := range policies {
 		pid, pol := c.policy(ops)
